@@ -11,7 +11,9 @@ merges adjacent layers and is refused whenever an attribute that changes pixels 
 Added in round 4: ranges of sources are merged unfiltered (a source without range makes the layer
 unlimited), the opacity of a layer is never tested by truthiness and fades exactly below 1.0
 (C14.i); a group layer is as opaque as what it draws (C14.b).
-Added in round 5: flatten_to_polygons tests the type of each part (C14.j)."""
+Added in round 5: flatten_to_polygons tests the type of each part (C14.j).
+Added in round 6: a colour-keyed source is not opaque (C14.k); the combined source gets every
+attribute the compatibility test compared (C14.l)."""
 import ast
 
 from ..engine import rule, run_property
